@@ -8,7 +8,7 @@ use mck::{json, Args, Report, Value};
 use winter_air::{Air, Assertion, BoundaryConstraints, TransitionConstraintDegree};
 use winter_math::fields::f64::BaseElement as B;
 
-use crate::util::{catalogue, merge_all, options, pow2s, tiny_air, Desc, Kind, Sweep};
+use crate::util::{catalogue, guarded, masks_meet, merge_all, options, tiny_air, Desc, Kind, Mask, Sweep};
 
 const COLS: usize = 2;
 
@@ -176,9 +176,9 @@ fn check_list(n: usize, ds: &[Desc], asserts: &[Assertion<B>], ctx: &winter_air:
     }
 }
 
-fn check_pair(n: usize, da: &Desc, db: &Desc, a: &Assertion<B>, b: &Assertion<B>, ma: u128, mb: u128, s: &mut Sweep) -> bool {
+fn check_pair(n: usize, da: &Desc, db: &Desc, a: &Assertion<B>, b: &Assertion<B>, ma: &Mask, mb: &Mask, s: &mut Sweep) -> bool {
     s.evals += 1;
-    let expect = da.col == db.col && (ma & mb) != 0;
+    let expect = da.col == db.col && masks_meet(ma, mb);
     let got = a.overlaps_with(b);
     let tag = format!("overlap {}:{}x{}", expect, da.effective().name(), db.effective().name());
     s.count(&tag);
@@ -242,7 +242,7 @@ fn sweep_n(n: usize, triples: bool) -> Vec<(String, Sweep)> {
     // constructors + single-assertion behaviour over every length 0..=4n
     let space = ctor_space(n);
     let chunks = 64;
-    let parts = mck::par_map(chunks, |c| {
+    let parts = mck::par_map(chunks, |c| guarded("C21", || {
         let mut s = Sweep::new();
         for (i, d) in space.iter().enumerate() {
             if i % chunks != c {
@@ -254,30 +254,39 @@ fn sweep_n(n: usize, triples: bool) -> Vec<(String, Sweep)> {
             }
         }
         s
-    });
+    }));
     out.push((format!("n={n} constructors x lengths 0..={}", 4 * n + 1), merge_all(parts)));
 
     // all ordered pairs of the assertions valid at n
-    let cat = catalogue(n, COLS);
-    let asserts: Vec<Assertion<B>> = cat.iter().map(|d| d.build::<B>().expect("catalogue member rejected")).collect();
-    let masks: Vec<u128> = cat.iter().map(|d| d.step_mask(n)).collect();
-    for (d, a) in cat.iter().zip(&asserts) {
-        assert!(d.fits(n) && a.validate_trace_length(n).is_ok(), "catalogue member {} is not valid at n = {n}", d.show());
+    let mut pre = Sweep::new();
+    let mut cat: Vec<Desc> = vec![];
+    let mut asserts: Vec<Assertion<B>> = vec![];
+    for d in catalogue(n, COLS) {
+        match d.build::<B>() {
+            Ok(a) if d.fits(n) && a.validate_trace_length(n).is_ok() => {
+                cat.push(d);
+                asserts.push(a);
+            },
+            _ => pre.fail("wrong:catalogue-member-not-valid-at-n", format!("n={n} {}", d.show()), format!("{} is valid at trace length {n} by the documented rules but the constructor or validate_trace_length({n}) refuses it; it is left out of the pair space", d.show()), json!({"kind": "one", "a": d.to_json(), "max_len": 4 * n + 1})),
+        }
     }
-    let parts = mck::par_map(cat.len(), |i| {
+    let masks: Vec<Mask> = cat.iter().map(|d| d.step_mask(n)).collect();
+    let parts = mck::par_map(cat.len(), |i| guarded("C21", || {
         let mut s = Sweep::new();
         let c2 = ctx(n, 2);
         let cc = coeffs(2);
         for j in 0..cat.len() {
-            check_pair(n, &cat[i], &cat[j], &asserts[i], &asserts[j], masks[i], masks[j], &mut s);
+            check_pair(n, &cat[i], &cat[j], &asserts[i], &asserts[j], &masks[i], &masks[j], &mut s);
             check_list(n, &[cat[i], cat[j]], &[asserts[i].clone(), asserts[j].clone()], &c2, &cc, n == 8, &mut s);
         }
         s
-    });
-    out.push((format!("n={n} ordered pairs of {} assertions", cat.len()), merge_all(parts)));
+    }));
+    let mut pairs = merge_all(parts);
+    pairs.absorb(pre);
+    out.push((format!("n={n} ordered pairs of {} assertions", cat.len()), pairs));
 
     if triples {
-        let parts = mck::par_map(cat.len(), |i| {
+        let parts = mck::par_map(cat.len(), |i| guarded("C21", || {
             let mut s = Sweep::new();
             let c3 = ctx(n, 3);
             let cc = coeffs(3);
@@ -287,7 +296,7 @@ fn sweep_n(n: usize, triples: bool) -> Vec<(String, Sweep)> {
                 }
             }
             s
-        });
+        }));
         out.push((format!("n={n} ordered triples of {} assertions", cat.len()), merge_all(parts)));
     }
     out
@@ -314,7 +323,7 @@ fn replay(args: &Args, v: &Value) -> ! {
             println!("pair at n = {n}: {} (steps {:?}) vs {} (steps {:?})", da.show(), da.steps(n), db.show(), db.steps(n));
             let (a, b) = (da.build::<B>().unwrap(), db.build::<B>().unwrap());
             println!("overlaps_with = {}", a.overlaps_with(&b));
-            check_pair(n, &da, &db, &a, &b, da.step_mask(n), db.step_mask(n), &mut s);
+            check_pair(n, &da, &db, &a, &b, &da.step_mask(n), &db.step_mask(n), &mut s);
         },
         Some("list") => {
             let n = v["n"].as_u64().unwrap() as usize;
@@ -333,10 +342,11 @@ pub fn run(args: &Args) {
         replay(args, &v);
     }
     let mut report = Report::new(args, "exploration");
-    let ns: Vec<usize> = args.tier.pick(vec![8, 16, 32, 64], vec![8, 16, 32, 64, 128]);
+    let ns: Vec<usize> = args.tier.pick(vec![8, 16, 32, 64], vec![8, 16, 32, 64, 128, 256]);
+    let triple_ns: Vec<usize> = args.tier.pick(vec![8], vec![8, 16]);
     let mut pairs = 0u64;
     for &n in &ns {
-        for (name, s) in sweep_n(n, n == 8) {
+        for (name, s) in sweep_n(n, triple_ns.contains(&n)) {
             if name.contains("pairs") {
                 pairs += s.evals / 2;
             }
@@ -350,7 +360,7 @@ pub fn run(args: &Args) {
     let (a, b) = (Desc::periodic(0, 1, 8), Desc::single(0, 18));
     report.sample(json!({"n": 32, "a": a.show(), "b": b.show(), "oracle": "18 is not 1 mod 8 => no overlap, constraints are built"}));
     report.exhaustive = true;
-    report.bounds = json!({"trace_lengths": ns, "columns": COLS, "strides": "every integer 0..=2n+1 at the constructors; every power of two 2..=n in the pair space", "first_steps": "all", "sequence_lengths": "every integer 0..=2n+1 at the constructors; n/stride in the pair space", "validate_lengths": "every integer 0..=4n+1", "ordered_pairs": pairs, "triples": "all ordered triples at n=8", pow2s_note(): pow2s(2, 8)});
+    report.bounds = json!({"trace_lengths": ns, "columns": COLS, "strides": "every integer 0..=2n+1 at the constructors; every power of two 2..=n in the pair space", "first_steps": "all", "sequence_lengths": "every integer 0..=2n+1 at the constructors; n/stride in the pair space", "validate_lengths": "every integer 0..=4n+1", "ordered_pairs": pairs, "triples_at": triple_ns});
     report.rule = "one evaluation per (assertion, trace length) / ordered pair / list; non-trivial = lengths the assertion fits, pairs that share a cell, lists containing an overlapping pair, constructor calls that must be rejected".into();
     report.assumptions = vec![
         "overlaps_with is only judged on pairs that are both valid at the common trace length n (documented meaning: same column and step)".into(),
@@ -358,8 +368,4 @@ pub fn run(args: &Args) {
         "periodic/sequence constructors reject first_step == stride although the doc comment says 'greater than'; not judged, counted in the part notes".into(),
     ];
     report.finish(args)
-}
-
-fn pow2s_note() -> &'static str {
-    "example_strides_n8"
 }
